@@ -4,7 +4,8 @@
 (* proto.UdpStack (GramStack).  The expected-effect table is the property statement:            *)
 (*   - a connection-loss error (reset, network / host unreachable or down, timed out, refused,  *)
 (*     TLS EOF) marks the connection cut off and yields no data, without raising;               *)
-(*   - a would-block result never changes connection state;                                     *)
+(*   - a would-block result never changes connection state (flags, and the socket itself: a     *)
+(*     connect that is still pending keeps its socket);                                         *)
 (*   - any other error propagates;                                                              *)
 (*   - datagram stacks treat transient destination errors on send and receive as retryable.     *)
 (* together with the docstrings: receive "If no data then returns None.  If connection closed   *)
@@ -27,16 +28,22 @@ VARIABLES cls,        \* transport class (fixed)
           txq,        \* messages / packets waiting to be sent
           wire,       \* bytes / datagrams the socket accepted
           rxn,        \* bytes in the receive buffer / packets received
+          gen,        \* how many times the transport replaced its socket by a fresh one (reopen)
+          live,       \* the transport holds an open socket
           res,        \* result of the last operation
           act,        \* the last step
           n           \* steps so far
-vars == <<cls, accepted, connected, cutoff, txq, wire, rxn, res, act, n>>
+vars == <<cls, accepted, connected, cutoff, txq, wire, rxn, gen, live, res, act, n>>
 
 Loss == {"ECONNRESET", "ENETRESET", "ENETUNREACH", "EHOSTUNREACH", "ENETDOWN", "EHOSTDOWN", "ETIMEDOUT", "ECONNREFUSED"}
 TlsEof == {"TLSEOF"}
 Block == {"EAGAIN", "EWOULDBLOCK"}
 TlsBlock == {"WANTREAD", "WANTWRITE"}
-ConnBlock == {"EINPROGRESS", "EALREADY", "EWOULDBLOCK"}     \* connect_ex codes meaning "not yet"
+\* connect_ex codes meaning "not yet": the first call of a nonblocking connect answers EINPROGRESS, every later call on
+\* the same socket EALREADY while the connection is still being established (EAGAIN = EWOULDBLOCK on some platforms)
+ConnBlock == {"EINPROGRESS", "EALREADY", "EWOULDBLOCK", "EAGAIN"}
+\* connect_ex codes meaning "server not listening": Client.accept "must reopen" its socket and try again later
+ConnRefused == {"EINVAL", "ECONNREFUSED"}
 Other == {"EPIPE", "EBADF", "ENOMEM", "EINVAL"}
 
 IsTls == cls \in {"clienttls", "incomertls"}
@@ -46,7 +53,8 @@ IsGram == cls \in {"udp", "udpstack"}
 
 \* the error class of e for socket operation op on this transport class; "na" = the statement says nothing
 Kind(op, via, e) ==
-    CASE op = "connect" /\ via = "rc" -> IF e \in ConnBlock THEN "block" ELSE IF e \in Loss THEN "loss" ELSE "na"
+    CASE op = "connect" /\ via = "rc" -> IF e \in ConnBlock THEN "block" ELSE IF e \in ConnRefused THEN "refused"
+                                         ELSE IF e \in Loss THEN "loss" ELSE "na"
       [] op = "connect" /\ via = "raise" -> IF e \in Other THEN "other" ELSE "na"
       [] op = "handshake" -> IF e \in TlsBlock THEN "block" ELSE IF e \in Loss \cup TlsEof THEN "loss"
                              ELSE IF e \in Other THEN "other" ELSE "na"
@@ -66,7 +74,7 @@ Errors == Loss \cup TlsEof \cup Block \cup TlsBlock \cup ConnBlock \cup Other
 \* entry points through which the code under test reaches each socket operation
 Vias(op) ==
     CASE op \in {"send", "recv"} -> IF op = "send" THEN {"direct", "service"} ELSE {"direct", "service", "once"}
-      [] op = "connect" -> {"rc", "raise"}
+      [] op = "connect" -> {"rc", "raise", "isconn"}
       [] op = "handshake" -> {"service"}
       [] op \in {"sendto", "recvfrom"} -> IF cls = "udp" THEN {"direct"} ELSE {"service", "once"}
       [] OTHER -> {}
@@ -103,7 +111,7 @@ Init == /\ cls \in Classes
                    [] cls = "incomer" -> a /\ c
                    [] cls = "incomertls" -> a
                    [] OTHER -> a /\ c
-        /\ cutoff = FALSE /\ txq = 1 /\ wire = 0 /\ rxn = 0
+        /\ cutoff = FALSE /\ txq = 1 /\ wire = 0 /\ rxn = 0 /\ gen = 0 /\ live = TRUE
         /\ res = None /\ act = Act("Init", "", "", "") /\ n = 0
 
 \* last: the behaviour ends here (what happens after an exception propagated, or after a failed connection attempt
@@ -117,33 +125,39 @@ Fail(op, via, e) ==
     /\ op \in Ops /\ via \in Vias(op) /\ Reaches(op, via)
     /\ LET k == Kind(op, via, e) IN
        /\ k # "na"
+       /\ via # "isconn"
        /\ Step("Fail", op, via, e, k = "other" \/ (k = "loss" /\ op \in {"connect", "handshake"}))
-       /\ CASE k = "block" ->      \* would-block never changes connection state
-                 /\ UNCHANGED <<accepted, connected, cutoff, txq, wire, rxn>>
+       /\ CASE k = "block" ->      \* would-block never changes connection state: same flags, same open socket
+                 /\ UNCHANGED <<accepted, connected, cutoff, txq, wire, rxn, gen, live>>
                  /\ res' = IF op \in {"connect", "handshake"} THEN Bool(FALSE)
                            ELSE IF via = "direct" THEN Nothing(op) ELSE None
+            [] k = "refused" ->     \* server not listening: not connected, the socket is replaced by a fresh one; no exception
+                 /\ connected' = FALSE /\ accepted' = FALSE /\ gen' = gen + 1 /\ live' = TRUE
+                 /\ UNCHANGED <<cutoff, txq, wire, rxn>>
+                 /\ res' = Bool(FALSE)
             [] k = "loss" /\ op \in {"send", "recv"} ->     \* cut off, no data, no exception, nothing lost from the queue
                  /\ cutoff' = TRUE
-                 /\ UNCHANGED <<accepted, connected, txq, wire, rxn>>
+                 /\ UNCHANGED <<accepted, connected, txq, wire, rxn, gen, live>>
                  /\ res' = IF via = "direct" THEN (IF op = "send" THEN Num(0) ELSE EmptyBytes) ELSE None
             [] k = "loss" /\ op = "connect" ->   \* not connected, try again later; no exception
                  /\ connected' = FALSE
-                 /\ UNCHANGED <<accepted, cutoff, txq, wire, rxn>>     \* accepted, cutoff: not specified, not compared
+                 /\ UNCHANGED <<accepted, cutoff, txq, wire, rxn, gen, live>>     \* accepted, cutoff, socket: not specified, not compared
                  /\ res' = Bool(FALSE)
             [] k = "loss" /\ op = "handshake" ->   \* the connection is marked cut off; not connected; no exception
                  /\ connected' = FALSE /\ cutoff' = TRUE
-                 /\ UNCHANGED <<accepted, txq, wire, rxn>>             \* accepted: not specified, not compared
+                 /\ UNCHANGED <<accepted, txq, wire, rxn, gen, live>>  \* accepted, socket: not specified, not compared
                  /\ res' = Bool(FALSE)
             [] k = "loss" /\ op \in {"sendto", "recvfrom"} ->     \* retryable: the packet stays queued / nothing is reported
-                 /\ UNCHANGED <<accepted, connected, cutoff, txq, wire, rxn>>
+                 /\ UNCHANGED <<accepted, connected, cutoff, txq, wire, rxn, gen, live>>
                  /\ res' = None
             [] k = "other" ->       \* propagates; what state is left behind is not specified
                  /\ res' = Raise(e)
-                 /\ UNCHANGED <<accepted, connected, cutoff, txq, wire, rxn>>    \* not specified, not compared
+                 /\ UNCHANGED <<accepted, connected, cutoff, txq, wire, rxn, gen, live>>    \* not specified, not compared
 
 Ok(op, via) ==
     /\ op \in Ops /\ via \in Vias(op) /\ via # "raise" /\ Reaches(op, via)
     /\ Step("Ok", op, via, "", FALSE)
+    /\ UNCHANGED <<gen, live>>
     /\ CASE op = "send" /\ via = "direct" -> res' = Num(2) /\ wire' = wire + 2 /\ UNCHANGED <<accepted, connected, cutoff, txq, rxn>>
          [] op = "send" -> res' = None /\ wire' = wire + 2 /\ txq' = txq - 1 /\ UNCHANGED <<accepted, connected, cutoff, rxn>>
          [] op = "recv" /\ via = "direct" -> res' = Bytes(1) /\ UNCHANGED <<accepted, connected, cutoff, txq, wire, rxn>>
@@ -157,7 +171,7 @@ Ok(op, via) ==
          [] op = "recvfrom" -> res' = None /\ rxn' = rxn + 1 /\ UNCHANGED <<accepted, connected, cutoff, txq, wire>>
 
 AllOps == {"send", "recv", "connect", "handshake", "sendto", "recvfrom"}
-AllVias == {"direct", "service", "once", "rc", "raise"}
+AllVias == {"direct", "service", "once", "rc", "raise", "isconn"}
 Next == /\ n < MaxSteps
         /\ \/ \E op \in AllOps, via \in AllVias, e \in Errors : Fail(op, via, e)
            \/ \E op \in AllOps, via \in AllVias : Ok(op, via)
@@ -173,9 +187,13 @@ LossNeverRaises == (act.a = "Fail" /\ LastKind = "loss") => res.t # "raise"
 \* would-block never changes connection state, never raises
 BlockKeepsState == [][(act'.a = "Fail" /\ Kind(act'.op, act'.via, act'.e) = "block") =>
                         (cutoff' = cutoff /\ connected' = connected /\ accepted' = accepted /\ txq' = txq /\ wire' = wire
+                         /\ gen' = gen /\ live' = live
                          /\ rxn' = rxn /\ res'.t # "raise")]_vars
 \* any other error propagates - and only those
 OtherPropagates == (act.a = "Fail") => (res.t = "raise" <=> LastKind = "other")
+\* a refused connect (server not listening) replaces the socket and stays unconnected, without raising
+RefusedReopens == [][(act'.a = "Fail" /\ Kind(act'.op, act'.via, act'.e) = "refused") =>
+                       (gen' = gen + 1 /\ live' /\ ~connected' /\ ~accepted' /\ res'.t # "raise")]_vars
 \* datagram stacks: a transient destination error keeps the packet queued and reports nothing
 DatagramRetry == [][(act'.a = "Fail" /\ cls = "udpstack" /\ Kind(act'.op, act'.via, act'.e) = "loss") =>
                       (txq' = txq /\ wire' = wire /\ rxn' = rxn /\ res'.t # "raise")]_vars
